@@ -309,7 +309,7 @@ def cmd_run(a):
             "evaluations": agg["n"],
             "distinct_nontrivial": len(agg["sigs"]),
             "rule": desc["rule"],
-            "samples": [{"run": i, "trace": core._canon(tr)} for i, tr in sorted(agg["samples"], key=lambda s: s[0])[:n_samples]],
+            "samples": _samples(agg["samples"], n_samples),
             "runs_requested": n_runs,
             "runs_per_hour": int(agg["n"] / max(wall, 1e-9) * 3600),
             "logical_steps": agg["steps"],
@@ -347,6 +347,18 @@ def cmd_run(a):
         print("HARNESS-ERROR: no run executed")
         return 2
     return 0
+
+
+def _samples(samples, n, limit=40000):
+    """The first runs' traces, written out; at least one, more while the evidence file stays readable."""
+    out, size = [], 0
+    for i, tr in sorted(samples, key=lambda s: s[0])[:n]:
+        c = core._canon(tr)
+        size += len(core.cjson(c))
+        if out and size > limit:
+            break
+        out.append({"run": i, "trace": c})
+    return out
 
 
 def cmd_setup(a):
